@@ -99,14 +99,25 @@ class Rng:
 
 
 # ---------------------------------------------------------------------------------------------
-def sh(cmd, timeout=600, cwd=None, env=None, input=None, check=False, binary=False):
+def _big_stack():
+    """extracted models recurse over their inputs (inductive lists, Peano numbers): give the child the largest stack allowed,
+    so that a long input (a 128 KB word, a 100 000-line section) is not answered with 'Stack overflow'"""
+    import resource
+    try:
+        soft, hard = resource.getrlimit(resource.RLIMIT_STACK)
+        resource.setrlimit(resource.RLIMIT_STACK, (hard, hard))
+    except Exception:
+        pass
+
+
+def sh(cmd, timeout=600, cwd=None, env=None, input=None, check=False, binary=False, big_stack=False):
     """Run a command under a timeout; returns (rc, stdout, stderr). rc=124 on timeout."""
     e = dict(os.environ)
     if env:
         e.update(env)
     try:
         p = subprocess.run(cmd, cwd=cwd, env=e, input=input, stdout=subprocess.PIPE, stderr=subprocess.PIPE,
-                           timeout=timeout, shell=isinstance(cmd, str))
+                           timeout=timeout, shell=isinstance(cmd, str), preexec_fn=_big_stack if big_stack else None)
         out, err, rc = p.stdout, p.stderr, p.returncode
     except subprocess.TimeoutExpired as t:
         out, err, rc = t.stdout or b"", t.stderr or b"", 124
@@ -552,7 +563,7 @@ def diff_lines(a, b, limit=5):
 def run_lines(exe, lines, timeout=600, env=None, prefix=()):
     """feed one case per line to a line-oriented driver; returns list of output lines (same length)"""
     data = ("\n".join(lines) + "\n").encode()
-    rc, out, err = sh(list(prefix) + [exe], input=data, timeout=timeout, env=env)
+    rc, out, err = sh(list(prefix) + [exe], input=data, timeout=timeout, env=env, big_stack=True)
     res = out.split("\n")
     if res and res[-1] == "":
         res.pop()
